@@ -123,6 +123,18 @@ CLAIMED = {
             "uiHeartbeat to end in signer mode or report -905.",
             "partial: reply assembly is tied by correspondence + oracle; the simulated device stands for a genuine "
             "one; known finding F-13a"),
+    "C15": ("Lean theorems about the framing between the device and the attestation file: the SGX quote envelope "
+            "(fixed structs, u16-prefixed QE auth data, u16+u32-prefixed certification data, custom message) is "
+            "parsed back field by field for every well-formed envelope with auth / cert data of any admissible "
+            "length (parse (build e) = e); a message cut into any pages within the limit is reassembled exactly and "
+            "more pages than allowed are refused. Acceptance with exactly the device's values is the composition "
+            "with C06/C07/C08 under the hypothesis that signatures verify. Tied to the code end to end: simulated "
+            "genuine Ledger and SGX devices (real keys) are driven through the real DongleAdmin endorsement calls, "
+            "ledger_attestation / sgx_attestation do_attestation, save+load and the real verify commands; the "
+            "printed values must equal the model's; every single-point alteration of the device's answers or the "
+            "root must end in an error.",
+            "partial: 'any alteration is refused' rests on unforgeability — exercised with real keys (a test), "
+            "not proved; the interactive part of do_onboard is covered by C18"),
     "C16": ("Lean theorems: the sanity walk of _parse (the unbounded `while True` with a visited list) never needs "
             "more than |elements|+1 steps (pigeonhole on distinct names) — the Python loop terminates on every "
             "input; an accepted target has a finite, duplicate-free chain ending at an element signed by the root, "
